@@ -5,9 +5,11 @@ See Also:
   - [eolib.protocol._generated.net][]
 """
 
+# NOTE: the generated package is star-imported first, so that `client`, `server` and `packet` end up
+# bound to the public sub-modules of this package and not to attributes of the _generated package.
+from .._generated.net import *
+
 from .packet import *
 
 from .client import *
 from .server import *
-
-from .._generated.net import *
